@@ -1173,7 +1173,8 @@ class C12(Spec):
                 inner = {"a": a, "args": [r.randint(0, n + 1)]}
             else:
                 k2 = r.randint(1, 6)
-                inner = {"a": a, "args": [k2], "kw": {"offset": r.randint(0, k2 - 1)}}
+                # "all n/offset parameters": the offset only delays the first run, so it may exceed n
+                inner = {"a": a, "args": [k2], "kw": {"offset": r.randint(0, k2 - 1) if r.random() < 0.5 else r.randint(0, 2 * k2 + 3)}}
             calls = 2 if (a != "RunAfterDays" and r.random() < 0.3) else 1
             probes.append({"a": "Probe", "id": k, "inner": inner, "calls": calls})
         sub = {"k": "S", "name": "sub", "cls": "Strategy", "fi": False, "how": "list", "children": [], "algos": list(probes)}
@@ -1729,6 +1730,21 @@ class C20(Spec):
                 return (a + (b - a) * r.choice([0.5, 1.0, 1.0])).isoformat() if b > a else dates[k]
 
             active_roll = fam == "active" and r.random() < 0.5
+            # both schedules on one strategy: perm['closed'] and perm['rolled'] are both populated when SelectActive runs
+            active_both = fam == "active" and len(tgt_names) >= 2 and len(evd) >= 2 and r.random() < 0.4
+            tab2 = None
+            if active_both:
+                active_roll = False
+                others = [t for t in tickers if t not in tgt_names] or None
+                if others is None:
+                    active_both = False
+                else:
+                    h = r.randint(1, len(tgt_names) - 1)
+                    roll_names, roll_evd = tgt_names[h:], evd[h : len(tgt_names)]
+                    tgt_names, evd = tgt_names[:h], evd[:h]
+                    tab2 = {"kind": "table", "index": roll_names, "cols": ["date", "target", "factor"], "data": [[between(k), r.choice(others), r.choice([1.0, 0.5, 2.0, 1.25])] for k in roll_evd], "datecols": ["date"]}
+                    extra["rd"] = tab2
+                    fired["close_and_roll_schedules"] = 1
             if fam in ("close", "active") and not active_roll:
                 tab = {"kind": "table", "index": tgt_names, "cols": ["date"], "data": [[between(k)] for k in evd[: len(tgt_names)]], "datecols": ["date"]}
                 if fam == "active" and r.random() < 0.5:
@@ -1740,6 +1756,8 @@ class C20(Spec):
                     fired["matured_before_start"] = 1
                 extra["cd"] = tab
                 head = [{"a": "ClosePositionsAfterDates", "args": ["cd"]}, {"a": "Spy", "id": 3}]
+                if tab2 is not None:
+                    head = (head + [{"a": "RollPositionsAfterDates", "args": ["rd"]}]) if r.random() < 0.5 else ([{"a": "RollPositionsAfterDates", "args": ["rd"]}] + head)
                 # prices disappear after maturity (the position is closed by then)
                 for name, k in zip(tgt_names, evd):
                     j = tickers.index(name)
@@ -1757,6 +1775,8 @@ class C20(Spec):
             else:
                 st = head + upd + [{"a": "Spy", "id": 1}] + opener
             plan_x = {"table": tab}
+            if tab2 is not None:
+                plan_x["table2"] = tab2
         root["algos"] = st
         cfg = {"integer": False, "comm": None, "capital": 0.0, "fi": True, "obs_price": False, "obs_eod": False, "profile": "risk_" + fam}
         return {"driver": "engine", "cfg": cfg, "tree": root, "feed": fspec, "extra": extra, "fam": fam, "measures": measures, "hist": hist, "x": plan_x, "fired": fired, "mult": mult}
@@ -1872,42 +1892,42 @@ class C20(Spec):
         for n in root.members:
             if not hasattr(n, "capital"):
                 pos[n.name] = n.positions.to_numpy(dtype=float)[1:]
-        if fam == "active" and "target" in plan["x"]["table"]["cols"]:
-            tab = plan["x"]["table"]
-            for sid, t, _p, selected in snaps:
-                if sid == 5:
-                    for name, row in zip(tab["index"], tab["data"]):
-                        if dates[t] >= _dt.datetime.fromisoformat(row[0]) and name in selected:
-                            viol.append({"check": "c20_select_active", "detail": "%s was rolled after %s but SelectActive still selects it on %s" % (name, row[0], dates[t]), "flags": {"table": "roll"}})
-                            break
-                    fired["active_after_roll"] = 1
-        elif fam in ("close", "active"):
-            tab = plan["x"]["table"]
-            for name, (d,) in zip(tab["index"], tab["data"]):
-                D = _dt.datetime.fromisoformat(d)
-                ks = [k for k, x in enumerate(dates) if x >= D]
-                if not ks or name not in pos:
-                    continue
-                k0 = ks[0]
-                fired["close_date_passed"] = fired.get("close_date_passed", 0) + 1
-                if (np.abs(pos[name][k0:]) > 1e-12).any():
-                    k = k0 + int(np.argmax(np.abs(pos[name][k0:]) > 1e-12))
-                    decl = [s["decl"] for _p, s in drive_engine.trees.securities(plan["tree"]) if s["name"] == name]
-                    flat_at_close = not (np.abs(pos[name][:k0]) > 1e-12).any()
-                    viol.append({"check": "c20_close", "detail": "%s closes after %s but holds %r at the end of %s" % (name, D, pos[name][k], dates[k]), "flags": {"fam": fam, "lazy_child": bool(decl and decl[0] != "obj"), "flat_when_date_passed": bool(flat_at_close)}})
-                    break
-                if (np.abs(pos[name][:k0]) > 1e-12).any():
-                    fired["position_closed"] = fired.get("position_closed", 0) + 1
-            for sid, t, _p, selected in snaps:
-                if sid == 5:
-                    for name, (d,) in zip(tab["index"], tab["data"]):
-                        if dates[t] >= _dt.datetime.fromisoformat(d) and name in selected:
-                            decl = [s["decl"] for _p, s in drive_engine.trees.securities(plan["tree"]) if s["name"] == name]
-                            D = _dt.datetime.fromisoformat(d)
-                            k0 = [k for k, x in enumerate(dates) if x >= D][0]
-                            flat = name not in pos or not (np.abs(pos[name][:k0]) > 1e-12).any()
-                            viol.append({"check": "c20_select_active", "detail": "%s was closed after %s but SelectActive still selects it on %s" % (name, d, dates[t]), "flags": {"lazy_child": bool(decl and decl[0] != "obj"), "flat_when_date_passed": bool(flat)}})
-                            break
+        tabs = [plan["x"][k] for k in ("table", "table2") if k in plan["x"]] if fam in ("close", "active") else []
+        for tab in tabs:
+            if fam == "active" and "target" in tab["cols"]:
+                for sid, t, _p, selected in snaps:
+                    if sid == 5:
+                        for name, row in zip(tab["index"], tab["data"]):
+                            if dates[t] >= _dt.datetime.fromisoformat(row[0]) and name in selected:
+                                viol.append({"check": "c20_select_active", "detail": "%s was rolled after %s but SelectActive still selects it on %s" % (name, row[0], dates[t]), "flags": {"table": "roll"}})
+                                break
+                        fired["active_after_roll"] = 1
+            else:
+                for name, (d,) in zip(tab["index"], tab["data"]):
+                    D = _dt.datetime.fromisoformat(d)
+                    ks = [k for k, x in enumerate(dates) if x >= D]
+                    if not ks or name not in pos:
+                        continue
+                    k0 = ks[0]
+                    fired["close_date_passed"] = fired.get("close_date_passed", 0) + 1
+                    if (np.abs(pos[name][k0:]) > 1e-12).any():
+                        k = k0 + int(np.argmax(np.abs(pos[name][k0:]) > 1e-12))
+                        decl = [s["decl"] for _p, s in drive_engine.trees.securities(plan["tree"]) if s["name"] == name]
+                        flat_at_close = not (np.abs(pos[name][:k0]) > 1e-12).any()
+                        viol.append({"check": "c20_close", "detail": "%s closes after %s but holds %r at the end of %s" % (name, D, pos[name][k], dates[k]), "flags": {"fam": fam, "lazy_child": bool(decl and decl[0] != "obj"), "flat_when_date_passed": bool(flat_at_close)}})
+                        break
+                    if (np.abs(pos[name][:k0]) > 1e-12).any():
+                        fired["position_closed"] = fired.get("position_closed", 0) + 1
+                for sid, t, _p, selected in snaps:
+                    if sid == 5:
+                        for name, (d,) in zip(tab["index"], tab["data"]):
+                            if dates[t] >= _dt.datetime.fromisoformat(d) and name in selected:
+                                decl = [s["decl"] for _p, s in drive_engine.trees.securities(plan["tree"]) if s["name"] == name]
+                                D = _dt.datetime.fromisoformat(d)
+                                k0 = [k for k, x in enumerate(dates) if x >= D][0]
+                                flat = name not in pos or not (np.abs(pos[name][:k0]) > 1e-12).any()
+                                viol.append({"check": "c20_select_active", "detail": "%s was closed after %s but SelectActive still selects it on %s" % (name, d, dates[t]), "flags": {"lazy_child": bool(decl and decl[0] != "obj"), "flat_when_date_passed": bool(flat)}})
+                                break
         if fam == "roll":
             tab = plan["x"]["table"]
             by_t = {t: p for sid, t, p, _s in snaps if sid == 4}
